@@ -717,7 +717,7 @@ func (p *parser) unary() (ast.Node, error) {
 
 	// special case for max negative long
 	tok := p.peek()
-	if len(ops) > 0 && ops[len(ops)-1] && tok.isInt() {
+	if len(ops) > 0 && ops[len(ops)-1] && tok.isInt() && !p.memberAccessFollows() {
 		p.advance()
 		i, err := strconv.ParseInt("-"+tok.Text, 10, 64)
 		if err != nil {
@@ -741,6 +741,16 @@ func (p *parser) unary() (ast.Node, error) {
 		}
 	}
 	return res, nil
+}
+
+// memberAccessFollows reports whether the token after the current one starts a member access. In `-5.a` the
+// minus sign applies to the member expression `5.a`, so the integer must not be folded into a negative literal.
+func (p *parser) memberAccessFollows() bool {
+	if p.pos+1 >= len(p.tokens) {
+		return false
+	}
+	next := p.tokens[p.pos+1].Text
+	return next == "." || next == "["
 }
 
 func (p *parser) member() (ast.Node, error) {
